@@ -759,6 +759,9 @@ def is_(run, a, b, node):
             h = run.x.reg.stubs.get(("is_false", x.ty.name))
             if h is not None and y.ty is TBool and z3.is_false(z3.simplify(y.t)):
                 return h(run, x)
+            h = run.x.reg.stubs.get(("is_true", x.ty.name))
+            if h is not None and y.ty is TBool and z3.is_true(z3.simplify(y.t)):
+                return h(run, x)
         if isinstance(a.ty, TRef) and isinstance(b.ty, TRef):
             return a.t == b.t
         if a.ty is TBool and b.ty is TBool:
@@ -783,6 +786,46 @@ def is_none_like(v):
 # ------------------------------------------------------------------ comprehensions
 def comprehension(run, node, fr, kind):
     from .interp import Frame
+    if kind == "list" and len(node.generators) == 1 and node.generators[0].ifs:
+        g = node.generators[0]
+        srcv = run.ev(g.iter, fr)
+        if isinstance(srcv, VTuple) and not srcv.items:
+            return Conc(("emptylist",))
+        src = iter_to_seq(run, srcv, node)
+        # [f(x) for x in S if c(x)]: a fresh sequence R that is f mapped over the ORDER-PRESERVING selection of the elements of
+        # S satisfying c: pos(q) = index in S of the q-th selected element (strictly increasing), inv = its inverse on the
+        # selected indices.  c and f are evaluated once as TERMS over an arbitrary element (no forking).
+        i = z3.FreshConst(z3.IntSort(), "ci")
+        f2 = Frame(fr.finfo, parent=fr)
+        run.assign(g.target, Val(src.ty.elem, src.t[i]), f2)
+        rng = z3.And(0 <= i, i < z3.Length(src.t))
+        run.spec += 1
+        run.qvars.append(i)
+        run.guards.append(rng)
+        try:
+            cond = z3.And(*[run.truth(run.ev(c_, f2)) for c_ in g.ifs])
+            out = run.ev(node.elt, f2)
+        finally:
+            run.guards.pop()
+            run.qvars.pop()
+            run.spec -= 1
+        if not isinstance(out, Val):
+            raise err("list comprehension element is not a symbolic value")
+        rty = TSeq(out.ty)
+        R = z3.FreshConst(rty.sort(), "fcomp")
+        pos = z3.Function(f"fcomp_pos!{R}", z3.IntSort(), z3.IntSort())
+        inv = z3.Function(f"fcomp_inv!{R}", z3.IntSort(), z3.IntSort())
+        q, q2 = z3.FreshConst(z3.IntSort(), "cq"), z3.FreshConst(z3.IntSort(), "cq2")
+        sub = lambda e, at: z3.substitute(e, (i, at))
+        for ax in (
+            z3.Length(R) <= z3.Length(src.t),
+            z3.ForAll([q], z3.Implies(z3.And(0 <= q, q < z3.Length(R)), z3.And(0 <= pos(q), pos(q) < z3.Length(src.t), sub(cond, pos(q)), R[q] == sub(out.t, pos(q)), inv(pos(q)) == q))),
+            z3.ForAll([q, q2], z3.Implies(z3.And(0 <= q, q < q2, q2 < z3.Length(R)), pos(q) < pos(q2))),
+            z3.ForAll([i], z3.Implies(z3.And(rng, cond), z3.And(0 <= inv(i), inv(i) < z3.Length(R), pos(inv(i)) == i))),
+        ):
+            run.pc.append(ax)
+            run.solver_add(ax)
+        return Val(rty, R)
     if kind == "list" and len(node.generators) == 1 and not node.generators[0].ifs:
         g = node.generators[0]
         src = iter_to_seq(run, run.ev(g.iter, fr), node)
